@@ -289,6 +289,33 @@ func (a *Adv) ContractProbes() int {
 					n++
 				}
 			}
+			// the prover keeps the genuine chain index element (ID, position, proof) but swaps the block ID inside it, and with
+			// it the challenge, for one that selects a leaf of its choosing, and proves that leaf honestly. Tried on every
+			// proof of the transaction: a later proof may refer to the same element as an earlier, genuine one.
+			if nLeaves > 1 {
+				sfx := ""
+				for rj := 0; rj < ri; rj++ {
+					if sp0, ok := orig.FileContractResolutions[rj].Resolution.(*types.V2StorageProof); ok && sp0.ProofIndex.ID == sp.ProofIndex.ID {
+						sfx = "/after-a-proof-with-the-same-index"
+					}
+				}
+				mk("self-chosen-challenge-block-id"+sfx, func(p *types.V2StorageProof) bool {
+					for k := byte(1); k < 64; k++ {
+						forged := p.ProofIndex.ChainIndex.ID
+						forged[31] ^= k
+						if j := ref.ChallengeIndex(fc.Filesize, forged, res.Parent.ID); j != idx {
+							p.ProofIndex.ChainIndex.ID = forged
+							leaf, path := fv.proof(j)
+							p.Leaf, p.Proof = leaf, toHashes(path)
+							return true
+						}
+					}
+					return false
+				})
+			}
+			if ri > firstProof(orig) {
+				continue // the remaining probes once per transaction
+			}
 			if nLeaves > 1 {
 				mk("other-leaf", func(p *types.V2StorageProof) bool {
 					j := fv.other(t, idx, "otherLeaf2")
@@ -339,7 +366,6 @@ func (a *Adv) ContractProbes() int {
 					return true
 				})
 			}
-			break
 		}
 	}
 	// ---- v2 revisions breaking a rule (signed by the current keys). The rules compare with the contract as
@@ -570,4 +596,14 @@ func refV1ProofRoot(era string, leaf [64]byte, path []types.Hash256, idx, filesi
 		}
 	}
 	return types.Hash256(h)
+}
+
+// firstProof is the position of the first storage-proof resolution of a transaction (len if none).
+func firstProof(txn types.V2Transaction) int {
+	for i, r := range txn.FileContractResolutions {
+		if _, ok := r.Resolution.(*types.V2StorageProof); ok {
+			return i
+		}
+	}
+	return len(txn.FileContractResolutions)
 }
